@@ -3,6 +3,7 @@
   check selftest determinism [IDs]   same seeds twice, 1 vs N workers, harness hash seed 0 vs 12345
   check selftest mutants [IDs]       every /verif/mutants/<ID>-*.diff must be detected by the quick tier
   check selftest seeded [IDs]        every /verif/seeded/<name>/patch.diff: report which checks catch it
+  check selftest benign [IDs]        property-preserving changes in mutants/benign/ must NOT raise an alarm
   check selftest sweep [seeds] [IDs] quick tier under several VERIF_SEEDs must stay silent (default seeds 1-5)
   check selftest restart             soft restart vs a fresh interpreter (C12, C04)
   check selftest schema              committed evidence files validate against the schema
@@ -107,6 +108,37 @@ def mutants(props, tier="quick"):
             print(out[-1500:])
     print(f"[selftest] mutants: {total - len(missed)}/{total} caught; missed: {missed}")
     return 1 if missed else 0
+
+
+def benign(props, tier="quick"):
+    """Property-preserving changes (refactorings, an improvement, other message texts, another deterministic
+    order): the checks of the properties named in the file name must stay silent (exit 0)."""
+    bad = 0
+    total = 0
+    for patch in sorted(glob.glob(os.path.join(VERIF, "mutants", "benign", "*.diff"))):
+        name = os.path.basename(patch)
+        for prop in name.split("-")[0].split("+"):
+            if props and prop not in props:
+                continue
+            total += 1
+            try:
+                base = scratch_tree(patch)
+            except RuntimeError as e:
+                print(f"[selftest] benign {name}: STALE - {str(e)[:200]}", flush=True)
+                bad += 1
+                continue
+            try:
+                with tempfile.TemporaryDirectory() as td:
+                    rc, out = _run(prop, tier, {"VERIF_REPO": base, "VERIF_EVIDENCE_DIR": td, "VERIF_REPLAY_DIR": td})
+            finally:
+                shutil.rmtree(base, ignore_errors=True)
+            sigs = re.findall(r"violation signature: (\S+)", out)
+            print(f"[selftest] benign {name} on {prop}: {'silent' if rc == 0 else 'ALARM'} rc={rc} {sigs[:3]}", flush=True)
+            if rc != 0:
+                bad += 1
+                print("\n".join(l[:500] for l in out.splitlines() if "detail" in l or "HARNESS" in l)[:2500])
+    print(f"[selftest] benign: {total - bad}/{total} silent")
+    return 1 if bad else 0
 
 
 def seeded(names, tier="quick"):
@@ -263,6 +295,8 @@ def main(argv):
         return seeded(props, tier)
     if what == "schema":
         return schema()
+    if what == "benign":
+        return benign(props, tier)
     if what == "sweep":
         return sweep(argv[1:])
     if what == "restart":
